@@ -169,6 +169,9 @@ func (c *Ctx) intrinsic(fn *ssa.Function, name string, args []Value) (Value, boo
 			bs[i] = c.newInput(fmt.Sprintf("%s_%d", nm, i), c.intSort(8), 8, false)
 		}
 		return &StrVal{B: bs}, true
+	case "verifAnd":
+		// verifAnd(a, b bool) bool: conjunction as a term (no fork, unlike &&)
+		return And(args[0].(*Term), args[1].(*Term)), true
 	case "verifTruthOf":
 		nm := c.strArg(args[0])
 		if v, ok := c.inputs[nm]; ok {
@@ -507,6 +510,10 @@ func (c *Ctx) bigText(x *Term, base int, upper bool) *StrVal {
 				ch = Ite(BVUlt(d8, BVConst64(10, 8)), ch, BVAdd(d8, BVConst64(int64(letter)-10, 8)))
 			}
 		}
+		if c.digitChars == nil {
+			c.digitChars = map[*Term]*Term{}
+		}
+		c.digitChars[ch] = d
 		out = append(out, ch)
 	}
 	return &StrVal{B: out}
@@ -1021,6 +1028,11 @@ func (c *Ctx) digitVal(ch *Term, base int) (*Term, *Term) {
 			return ISub(t, IntConst64(k))
 		}
 		return BVSub(t, BVConst64(k, 8))
+	}
+	if d, known := c.digitChars[ch]; known {
+		// ch was produced by bigText from the digit value d (0 <= d < 36):
+		// reading it back gives d (either letter case is accepted)
+		return d, c.bigLt(d, c.bigConst(big.NewInt(int64(base))))
 	}
 	isDec := c.byteIn(ch, '0', '9')
 	isLo := c.byteIn(ch, 'a', 'z')
